@@ -421,8 +421,10 @@ fn enforce_case() -> BoxedStrategy<Case> {
         (base_us(), gap_us(), gap_us(), 0u8..3),
         (any::<u16>(), prop_oneof![4 => Just(0u8), 1 => 1u8..=7], any::<u16>()),
         (lat, free),
+        // configured timeouts that are effectively unbounded (Duration::MAX): 0 none, 1 endpoint, 2 server, 3 both
+        prop_oneof![12 => Just(0u8), 1 => Just(1u8), 1 => Just(2u8), 1 => Just(3u8)],
     )
-        .prop_flat_map(|(stream, rk, ep, srv, (base, g1, g2, min_idx), (unit_sel, pad, mal_sel), (lat, free))| {
+        .prop_flat_map(|(stream, rk, ep, srv, (base, g1, g2, min_idx), (unit_sel, pad, mal_sel), (lat, free), huge)| {
             (scen_script(stream), c02::wire_blob(false), c02::pipe_schedule(), c02::pipe_schedule(), any::<u64>()).prop_map(
                 move |(script, req, c2s, s2c, rt_seed)| {
                     // offsets of the three sources (req, ep, srv); the source `min_idx` gets the base itself
@@ -446,6 +448,13 @@ fn enforce_case() -> BoxedStrategy<Case> {
                         s2c: s2c.clone(),
                         rt_seed,
                     };
+                    // u64::MAX microseconds stands for Duration::MAX ("no timeout" spelled as a huge one)
+                    if huge & 1 != 0 {
+                        s.ep_us = Some(u64::MAX);
+                    }
+                    if huge & 2 != 0 {
+                        s.srv_us = Some(u64::MAX);
+                    }
                     s.script.latency_ms = resolve_latency(&s, lat, free);
                     Case::Enforce(s)
                 },
@@ -861,8 +870,10 @@ fn run_enforce(s: &Scen, o: &mut Outcome) -> Result<(), Failure> {
     let sh2 = sh.clone();
     let stream = s.stream;
     let req_to = s.req_to.clone();
-    let ep = s.ep_us.map(Duration::from_micros);
-    let srv_to = s.srv_us.map(Duration::from_micros);
+    let dur = |u: u64| if u == u64::MAX { Duration::MAX } else { Duration::from_micros(u) };
+    let ep = s.ep_us.map(dur);
+    let srv_to = s.srv_us.map(dur);
+    o.label_if(s.ep_us == Some(u64::MAX) || s.srv_us == Some(u64::MAX), "enf_configured_timeout_duration_max");
     let msg = s.req.bytes();
     let res = rt::run_virtual(s.rt_seed, Duration::from_secs(100_000_000), async move {
         let server = tonic::transport::Server::builder();
@@ -1077,7 +1088,7 @@ impl Prop for C09 {
         run(c, o)
     }
     fn rule() -> &'static str {
-        "three families. (a) Request::set_timeout(d): d = k x unit + e for k in {99999998, 99999999, 10^8, 10^8+1, ...} around every point where the encoder must switch n->u->m->S->M->H, random (secs, nanos) with log-uniform seconds up to 99999999 h 59 m 59.999999999 s, zero, maximum; oracle: value matches [0-9]{1,8}[HMSmun], denotes (own u128 table) D' <= d with d - D' < one unit, finer unit would need > 8 digits (documented 'most precise unit'), tonic's parser maps it back to D'. (b) tonic's header parser (verif hook) on: every unit x 1..8 digits x {min, max, zeros, leading zeros, random} (enumerated), one-edit mutants of valid values (insert/delete/replace/transpose from an alphabet of signs, blanks, digits, units, wrong-case units, NUL, non-ASCII; 9 digits), arbitrary bytes, absent and repeated headers; oracle = independent grammar parser: conformant => exactly the denoted duration, malformed => never Ok(Some), never a panic. (c) real Channel + Server over the in-memory pipe on a paused clock: caller deadline (none | set_timeout | raw conformant header in any unit | raw malformed header) x Endpoint::timeout (none | e) x Server::timeout (none | s), values equal / 1 ms.. apart / far apart, unary and server-streaming vt.Raw handlers with scripted latency l at T-d, T+d (d in {2,3,5,17,100} ms), far below, far above and between the two shortest timeouts, T = min of the timeouts present, pipe fragmentation schedules, scheduler seed; oracle: l < T => exactly the scripted response/status (C02 judge) at virtual elapsed l +-2 ms; l > T => CANCELLED 'Timeout expired' at T +-2 ms; no timeout => completes at l. Non-trivial: (a) d within one unit of a unit switch, (b) one-edit mutant of a valid value or repeated header, (c) >= 2 timeouts present and different; distinct = distinct serialised case."
+        "three families. (a) Request::set_timeout(d): d = k x unit + e for k in {99999998, 99999999, 10^8, 10^8+1, ...} around every point where the encoder must switch n->u->m->S->M->H, random (secs, nanos) with log-uniform seconds up to 99999999 h 59 m 59.999999999 s, zero, maximum; oracle: value matches [0-9]{1,8}[HMSmun], denotes (own u128 table) D' <= d with d - D' < one unit, finer unit would need > 8 digits (documented 'most precise unit'), tonic's parser maps it back to D'. (b) tonic's header parser (verif hook) on: every unit x 1..8 digits x {min, max, zeros, leading zeros, random} (enumerated), one-edit mutants of valid values (insert/delete/replace/transpose from an alphabet of signs, blanks, digits, units, wrong-case units, NUL, non-ASCII; 9 digits), arbitrary bytes, absent and repeated headers; oracle = independent grammar parser: conformant => exactly the denoted duration, malformed => never Ok(Some), never a panic. (c) real Channel + Server over the in-memory pipe on a paused clock: caller deadline (none | set_timeout | raw conformant header in any unit | raw malformed header) x Endpoint::timeout (none | e) x Server::timeout (none | s), values equal / 1 ms.. apart / far apart, unary and server-streaming vt.Raw handlers with scripted latency l at T-d, T+d (d in {2,3,5,17,100} ms), far below, far above and between the two shortest timeouts, T = min of the timeouts present, pipe fragmentation schedules, scheduler seed; oracle: l < T => exactly the scripted response/status (C02 judge) at virtual elapsed l +-2 ms; l > T => CANCELLED 'Timeout expired' at T +-2 ms; no timeout => completes at l. Non-trivial: (a) d within one unit of a unit switch, (b) one-edit mutant of a valid value or repeated header, (c) >= 2 timeouts present and different; distinct = distinct serialised case. Also: configured timeouts of Duration::MAX (no effect on calls)."
     }
     fn assumptions() -> Vec<String> {
         vec![
